@@ -327,3 +327,176 @@ theorem renderNodes_singleton (V : Val) (n : Node) : renderNodes V [n] = renderN
   simp [renderNodes]
 
 end NunavutVerif.Lexer
+
+/-! ## a token stream without starred begin token parses to a tree without wrapper -/
+
+namespace NunavutVerif.Lexer
+
+theorem consItem_some {i : Item} {o : Option (List Item)} {items : List Item} (h : consItem i o = some items) :
+    ∃ rest, o = some rest ∧ items = i :: rest := by
+  cases o with
+  | none => simp [consItem] at h
+  | some rest => simp only [consItem, Option.some.injEq] at h; exact ⟨rest, rfl, h.symm⟩
+
+theorem mkTag_noStar (v : Str) (texts : List Str) (h : endsStar v = false) : (mkTag v texts).noStar = true := by
+  unfold mkTag; split <;> simp [Item.noStar, h]
+
+theorem groupItems_noStar (cur : Option (Bool × Str × List Str)) (toks : List PTok) (items : List Item)
+    (hg : groupItems cur toks = some items) (ht : ∀ p ∈ toks, parserWraps p = false)
+    (hc : ∀ b v acc, cur = some (b, v, acc) → endsStar v = false) : ∀ i ∈ items, i.noStar = true := by
+  induction toks generalizing cur items with
+  | nil =>
+    cases cur with
+    | none => simp [groupItems] at hg; subst hg; simp
+    | some c => simp [groupItems] at hg
+  | cons p ps ih =>
+    have hps : ∀ q ∈ ps, parserWraps q = false := fun q hq => ht q (by simp [hq])
+    have hp := ht p (by simp)
+    cases p with
+    | err l e => cases cur <;> simp [groupItems] at hg
+    | outOfFuel => cases cur <;> simp [groupItems] at hg
+    | tok l ty v =>
+      cases cur with
+      | none =>
+        simp only [groupItems] at hg
+        split at hg
+        · obtain ⟨rest, hr, rfl⟩ := consItem_some hg
+          intro i hi
+          rcases List.mem_cons.1 hi with rfl | hi
+          · rfl
+          · exact ih none rest hr hps (by intro b v acc h; cases h) i hi
+        · split at hg
+          · rename_i hty
+            refine ih _ items hg hps ?_
+            intro b v' acc h'
+            simp only [Option.some.injEq, Prod.mk.injEq] at h'
+            obtain ⟨_, rfl, _⟩ := h'
+            simp only [parserWraps, hty] at hp
+            simpa [endsStar] using hp
+          · split at hg
+            · rename_i hty
+              refine ih _ items hg hps ?_
+              intro b v' acc h'
+              simp only [Option.some.injEq, Prod.mk.injEq] at h'
+              obtain ⟨_, rfl, _⟩ := h'
+              simp only [parserWraps, hty] at hp
+              simpa [endsStar] using hp
+            · simp at hg
+      | some c =>
+        obtain ⟨isVar, bv, acc⟩ := c
+        have hbv : endsStar bv = false := hc isVar bv acc rfl
+        simp only [groupItems] at hg
+        split at hg
+        · obtain ⟨rest, hr, rfl⟩ := consItem_some hg
+          intro i hi
+          rcases List.mem_cons.1 hi with rfl | hi
+          · simp [Item.noStar, hbv]
+          · exact ih none rest hr hps (by intro b v acc h; cases h) i hi
+        · split at hg
+          · obtain ⟨rest, hr, rfl⟩ := consItem_some hg
+            intro i hi
+            rcases List.mem_cons.1 hi with rfl | hi
+            · exact mkTag_noStar bv _ hbv
+            · exact ih none rest hr hps (by intro b v acc h; cases h) i hi
+          · refine ih _ items hg hps ?_
+            intro b v' acc' h'
+            simp only [Option.some.injEq, Prod.mk.injEq] at h'
+            obtain ⟨_, rfl, _⟩ := h'
+            exact hbv
+
+
+
+theorem wrapStmt_noStar {v : Str} (n : Node) (h : endsStar v = false) : wrapStmt v n = n := by
+  simp [wrapStmt, h]
+
+theorem subparse_wrapperFree (st : Stmts) (fuel : Nat) (ends : List Str) (items : List Item)
+    (h : ∀ i ∈ items, i.noStar = true) :
+    ∀ ns e r, subparse st fuel ends items = .ok (ns, e, r) → wrapperFreeL ns = true ∧ ∀ i ∈ r, i.noStar = true := by
+  induction fuel generalizing ends items with
+  | zero => intro ns e r hs; simp [subparse] at hs
+  | succ fuel ih =>
+    intro ns e r hs
+    match items, h with
+    | [], _ =>
+      simp only [subparse, Except.ok.injEq, Prod.mk.injEq] at hs
+      obtain ⟨rfl, _, rfl⟩ := hs
+      exact ⟨rfl, by simp⟩
+    | .data s :: is, h =>
+      have his : ∀ i ∈ is, i.noStar = true := fun i hi => h i (by simp [hi])
+      simp only [subparse] at hs
+      split at hs
+      · rename_i ns' e' r' hrec
+        simp only [Except.ok.injEq, Prod.mk.injEq] at hs
+        obtain ⟨rfl, _, rfl⟩ := hs
+        obtain ⟨h1, h2⟩ := ih ends is his ns' e' r' hrec
+        exact ⟨by simp [wrapperFreeL, Node.wrapperFree, h1], h2⟩
+      · simp at hs
+    | .var v ex :: is, h =>
+      have his : ∀ i ∈ is, i.noStar = true := fun i hi => h i (by simp [hi])
+      have hv : endsStar v = false := by simpa [Item.noStar] using h (.var v ex) (by simp)
+      simp only [subparse, hv, Bool.false_eq_true, if_false] at hs
+      split at hs
+      · rename_i ns' e' r' hrec
+        simp only [Except.ok.injEq, Prod.mk.injEq] at hs
+        obtain ⟨rfl, _, rfl⟩ := hs
+        obtain ⟨h1, h2⟩ := ih ends is his ns' e' r' hrec
+        exact ⟨by simp [wrapperFreeL, Node.wrapperFree, h1], h2⟩
+      · simp at hs
+    | .tag v name arg :: is, h =>
+      have his : ∀ i ∈ is, i.noStar = true := fun i hi => h i (by simp [hi])
+      have hv : endsStar v = false := by simpa [Item.noStar] using h (.tag v name arg) (by simp)
+      simp only [subparse] at hs
+      split at hs
+      · simp only [Except.ok.injEq, Prod.mk.injEq] at hs
+        obtain ⟨rfl, _, rfl⟩ := hs
+        exact ⟨rfl, his⟩
+      · split at hs
+        · -- statement without body
+          split at hs
+          · rename_i ns' e' r' hrec
+            simp only [Except.ok.injEq, Prod.mk.injEq] at hs
+            obtain ⟨rfl, _, rfl⟩ := hs
+            obtain ⟨h1, h2⟩ := ih ends is his ns' e' r' hrec
+            rw [wrapStmt_noStar _ hv]
+            exact ⟨by simp [wrapperFreeL, Node.wrapperFree, h1], h2⟩
+          · simp at hs
+        · -- block statement
+          rename_i mids endName hblk
+          split at hs
+          · simp at hs
+          · simp at hs
+          · rename_i body stop r1 hbody
+            obtain ⟨hb1, hb2⟩ := ih _ is his body (some stop) r1 hbody
+            split at hs
+            · split at hs
+              · rename_i ns' e' r' hrec
+                simp only [Except.ok.injEq, Prod.mk.injEq] at hs
+                obtain ⟨rfl, _, rfl⟩ := hs
+                obtain ⟨h1, h2⟩ := ih ends r1 hb2 ns' e' r' hrec
+                rw [wrapStmt_noStar _ hv]
+                exact ⟨by simp [wrapperFreeL, Node.wrapperFree, h1, hb1], h2⟩
+              · simp at hs
+            · split at hs
+              · simp at hs
+              · simp at hs
+              · rename_i alt stop2 r2 halt
+                obtain ⟨ha1, ha2⟩ := ih _ r1 hb2 alt (some stop2) r2 halt
+                split at hs
+                · rename_i ns' e' r' hrec
+                  simp only [Except.ok.injEq, Prod.mk.injEq] at hs
+                  obtain ⟨rfl, _, rfl⟩ := hs
+                  obtain ⟨h1, h2⟩ := ih ends r2 ha2 ns' e' r' hrec
+                  rw [wrapStmt_noStar _ hv]
+                  exact ⟨by simp [wrapperFreeL, Node.wrapperFree, h1, hb1, ha1], h2⟩
+                · simp at hs
+
+theorem parseItems_wrapperFree (st : Stmts) (items : List Item) (h : ∀ i ∈ items, i.noStar = true) (ns : List Node)
+    (hp : parseItems st items = .ok ns) : wrapperFreeL ns = true := by
+  unfold parseItems at hp
+  split at hp
+  · rename_i ns' e r hs
+    simp only [Except.ok.injEq] at hp; subst hp
+    exact (subparse_wrapperFree st _ [] items h ns' e r hs).1
+  · simp at hp
+
+end NunavutVerif.Lexer
